@@ -93,6 +93,7 @@ class Suite:
         r, st = self._run_stall(runner, what, feat, files)
         self.stats['runs'] += 1
         self.scheds.add(cfg.sched); self.cores.add(cfg.cores); self.ranks.add(cfg.ranks)
+        self.vps = getattr(self, 'vps', set()); self.vps.add(getattr(cfg, 'vps', 1))
         res = dict(seed=seed, cfg=cfg, status=st, ninst=sum(len(x.inst) for x in refs))
         if st in ('violation', 'known', 'inconclusive', 'stalled'):
             shutil.rmtree(state.get('out', ''), ignore_errors=True)
@@ -179,6 +180,7 @@ class Suite:
         ctx = self.ctx
         for k, v in self.stats.items(): ctx.cov[k] = v
         ctx.cov['schedulers'] = sorted(self.scheds); ctx.cov['threads_per_rank'] = sorted(self.cores); ctx.cov['ranks'] = sorted(self.ranks)
+        ctx.cov['virtual_processes'] = sorted(getattr(self, 'vps', {1}))
         ctx.cov['motifs'] = self.motifs; ctx.cov['dep_backends'] = sorted(self.backends); ctx.cov['oracles'] = sorted(self.oracles)
 
 
